@@ -12,14 +12,15 @@ import re
 
 PROPS = {
     "C18": {
-        "coq_targets": ["theories/RT/FilesProofs.vo"],
+        "coq_targets": ["theories/RT/FilesProofs.vo", "theories/RT/ReadInputProofs.vo"],
         "harness": ["c18"],
         "disagreement_is_violation": True,
         "axioms": [],
         "trusted_base": COMMON_TB + [
             "modelled, not verified: rusty_basic/src/interpreter/io.rs (FileManager::open / close / close_all, FileInfo get_record / put_record) and the built-ins OPEN, PRINT #, LINE INPUT #, EOF, CLOSE, KILL, FIELD / LSET / PUT / GET as RT/Files.v; the operating system's files are assumed to behave as named byte sequences (the model's maps)",
             "harness/src/c18.rs: the sequence generator, the translation of operations into BASIC statements with a marker after each, the parsing of the program's output back into results",
-            "NOT modelled: INPUT # field splitting, console INPUT / LINE INPUT, NAME, file names that cannot be created, the bytes of PRINT # beyond whole lines of plain text (PRINT's own layout is C16's)",
+            "modelled, not verified: rusty_basic/src/interpreter/read_input.rs (ReadInputSource eof / input / line_input / skip_while / read_until, the one reader behind the file and the console forms) as RT/ReadInput.v over the bytes not yet consumed; str::trim as is_ws on U+0000..U+00FF; harness: byte streams written to a file and fed to the console, reads observed through PRINT \"<\"; A$; \">\"",
+            "NOT modelled: the conversion of an INPUT field to a number, NAME, file names that cannot be created, the bytes of PRINT # beyond whole lines of plain text (PRINT's own layout is C16's)",
         ],
         "assumptions": [
             "a file name is open under at most one handle at a time in the generated sequences",
